@@ -163,39 +163,12 @@ func (c *Conn) Hash() int {
 func (c *Conn) AsyncRead() {
 	g := c.p.g
 
-	// If is EPOLLONESHOT, run the read job directly, because the reading event wouldn't
-	// be re-dispatched before this reading event has been handled and set again.
-	if g.isOneshot {
-		g.IOExecute(func(pbuf *[]byte) {
-			for i := 0; i < g.MaxConnReadTimesPerEventLoop; i++ {
-				rc, n, err := c.ReadAndGetConn(pbuf)
-				if n > 0 {
-					*pbuf = (*pbuf)[:n]
-					g.onDataPtr(rc, pbuf)
-					// restore the full length for the next read.
-					*pbuf = (*pbuf)[:cap(*pbuf)]
-				}
-				if errors.Is(err, syscall.EINTR) {
-					continue
-				}
-				if errors.Is(err, syscall.EAGAIN) {
-					break
-				}
-				if err != nil {
-					_ = c.closeWithError(err)
-					return
-				}
-				if n < len(*pbuf) {
-					break
-				}
-			}
-			c.ResetPollerEvent()
-		})
-		return
-	}
-
-	// If is not EPOLLONESHOT, the reading event may be re-dispatched for more than
-	// once, here we reduce the duplicate reading events.
+	// With EPOLLONESHOT the reading event is normally not re-dispatched before the
+	// read task has re-armed the fd, but a Write that leaves a backlog re-arms it
+	// (with EPOLLIN) while the task is still running. So the same single-task gate
+	// is used for every mode.
+	// The reading event may be re-dispatched for more than once, here we reduce
+	// the duplicate reading events.
 	// The counter must never leave [0, 2]: a transient third increment that is
 	// undone after the running task has counted down to zero would leave it
 	// negative, and then two tasks run at the same time and never terminate.
@@ -239,6 +212,9 @@ func (c *Conn) AsyncRead() {
 				}
 			}
 			if atomic.AddInt32(&c.readEvents, -1) == 0 {
+				if g.isOneshot {
+					c.ResetPollerEvent()
+				}
 				return
 			}
 		}
